@@ -25,6 +25,47 @@ Mechanism level (model of smpi_win.cpp's request plumbing, section Mech of Model
 -/
 namespace SgVerif.C34
 
+/-! ### addressing: displacement units and the range check (boundaries) -/
+
+/-- The cell a displacement denotes is decided by the *target's* displacement unit alone: two assignments of units to the
+ranks that agree on the target give the same cell, whatever the origin's (or anybody else's) unit is. -/
+theorem dispIndexAt_target_only (dus dus' : List Nat) (t disp : Nat) (h : dus[t]? = dus'[t]?) :
+    dispIndexAt dus t disp = dispIndexAt dus' t disp := by
+  simp [dispIndexAt, h]
+
+/-- with the same unit everywhere this is the single-unit conversion -/
+theorem dispIndexAt_uniform (n du t disp : Nat) (h : t < n) :
+    dispIndexAt (List.replicate n du) t disp = dispIndex du disp := by
+  simp [dispIndexAt, h]
+
+/-- units 4 / 1 / 8 on ranks 0 / 1 / 2: cell 2 of each window is displacement 2, 8, 1 -/
+example : (dispIndexAt [4, 1, 8] 0 2, dispIndexAt [4, 1, 8] 1 8, dispIndexAt [4, 1, 8] 2 1, dispIndexAt [4, 1, 8] 1 3)
+    = (some 2, some 2, some 2, none) := by decide
+
+/-- `CHECK_RMA_REMOTE_WIN` at its boundary, for every window size: a transfer of exactly the whole window is accepted
+(a one-element counter window can be read and updated), one element more is refused.  (CAS: no check.) -/
+theorem rangeErr_iff (w : Nat) (c : Call) (h : ∀ id t d a b, c ≠ .cas id t d a b) :
+    c.rangeErr w = true ↔ w < c.count := by
+  cases c with
+  | cas id t d a b => exact absurd rfl (h id t d a b)
+  | put t d vals => simp [Call.rangeErr, Call.count]
+  | get id t d n => simp [Call.rangeErr, Call.count]
+  | acc t d op vals => simp [Call.rangeErr, Call.count]
+  | gacc id t d op vals => simp [Call.rangeErr, Call.count]
+
+theorem whole_window_accepted (w : Nat) (c : Call) (h : c.count ≤ w) : c.execW w = c.exec := by
+  funext m
+  have : c.rangeErr w = false := by
+    cases c <;> simp [Call.rangeErr, Call.count] at * <;> omega
+  simp [Call.execW, this]
+
+theorem past_the_end_refused (w : Nat) (c : Call) (h : ∀ id t d a b, c ≠ .cas id t d a b) (hc : w < c.count)
+    (m : Mem) : c.execW w m = m := by
+  simp [Call.execW, (rangeErr_iff w c h).2 hc]
+
+example : (Call.put 1 0 [5]).rangeErr 1 = false ∧ (Call.gacc 7 1 0 .sum [5]).rangeErr 1 = false ∧
+    (Call.get 7 1 0 4).rangeErr 4 = false ∧ (Call.get 7 1 0 5).rangeErr 4 = true := by decide
+
 /-! ### specification -/
 
 /-- Under exclusive locks (and for any phase) the observation is allowed iff it is the result of *some* serialisation
